@@ -1,0 +1,149 @@
+//go:build verif
+
+package scanner
+
+// Contracts for the verification machinery in /verif (comment-only file;
+// excluded from every build without the "verif" tag).
+
+// Scanner representation invariant: the read window lies inside the source.
+//@ spec func wfS0(s *Scanner) bool { s != nil && s.file != nil && 0 <= s.offset && s.offset <= s.rdOffset && s.rdOffset <= len(s.src) && s.file.size == len(s.src) && s.file.size <= 0x10000000000 }
+// ... and the current character is either a real one (strictly inside the window) or EOF (-1)
+//@ spec func wfS(s *Scanner) bool { wfS0(s) && s.ch >= -1 && (s.ch >= 0 ==> s.offset < s.rdOffset) && (s.ch < 0 ==> s.offset == len(s.src)) }
+
+//@ func (*Scanner).errf
+//@   assumed A-int: calls the user supplied ErrorHandler, which is assumed not to touch the scanner or its file
+//@   assigns s.ErrorCount
+
+//@ func (*Scanner).next
+//@   requires wfS0(s)
+//@   ensures  wfS(s) && s.offset >= old(s.offset) && s.rdOffset >= old(s.rdOffset) && s.ch >= -1
+//@   ensures  old(s.rdOffset) < len(s.src) ==> s.offset == old(s.rdOffset) && s.rdOffset > old(s.rdOffset) && s.ch >= 0
+//@   ensures  old(s.rdOffset) >= len(s.src) ==> s.offset == len(s.src) && s.ch == -1
+//@   assigns  s.ch, s.offset, s.rdOffset, s.ErrorCount, s.file.*, allelems(token.index)
+
+//@ func isLetter
+//@   pure
+//@   ensures ('a' <= ch && ch <= 'z') || ('A' <= ch && ch <= 'Z') ==> result
+//@   ensures ch < 0x80 && result ==> ('a' <= ch && ch <= 'z') || ('A' <= ch && ch <= 'Z')
+
+//@ func isDigit
+//@   pure
+//@   ensures '0' <= ch && ch <= '9' ==> result
+//@   ensures ch < 0x80 && result ==> '0' <= ch && ch <= '9'
+
+//@ func digitVal
+//@   ensures 0 <= result && result <= 16
+//@   ensures result < 16 ==> ('0' <= ch && ch <= '9') || ch == '_' || ('a' <= ch && ch <= 'f') || ('A' <= ch && ch <= 'F')
+//@   ensures '0' <= ch && ch <= '9' ==> result == ch - '0'
+
+//@ func (*Scanner).scanMantissa
+//@   requires wfS(s)
+//@   loop 0 invariant wfS(s) && s.offset >= old(s.offset)
+//@   ensures  wfS(s) && s.offset >= old(s.offset)
+//@   assigns  s.ch, s.offset, s.rdOffset, s.ErrorCount, s.file.*, allelems(token.index)
+
+//@ func (*Scanner).scanIdentifier
+//@   requires wfS(s)
+//@   loop 0 invariant wfS(s) && s.offset >= old(s.offset)
+//@   ensures  wfS(s) && s.offset >= old(s.offset)
+//@   assigns  s.ch, s.offset, s.rdOffset, s.ErrorCount, s.file.*, allelems(token.index)
+
+//@ func (*Scanner).scanFieldIdentifier
+//@   requires wfS(s)
+//@   loop 0 invariant wfS(s) && s.offset >= old(s.offset) && (old(s.ch) == '#' ==> s.offset > old(s.offset))
+//@   ensures  wfS(s) && s.offset >= old(s.offset)
+//@   ensures  old(s.ch) == '#' ==> s.offset > old(s.offset)
+//@   assigns  s.ch, s.offset, s.rdOffset, s.ErrorCount, s.file.*, allelems(token.index)
+
+//@ func (*Scanner).scanComment
+//@   requires wfS(s) && s.offset >= 1
+//@   loop 0 invariant wfS(s) && s.offset >= old(s.offset)
+//@   ensures  wfS(s) && s.offset >= old(s.offset)
+//@   assigns  s.ch, s.offset, s.rdOffset, s.ErrorCount, s.file.*, allelems(token.index)
+
+//@ func stripCR
+//@   loop 0 invariant 0 <= i && i <= rangeindex + 1 && rangeindex + 1 <= len(b) && len(c) == len(b)
+//@   ensures  len(result) <= len(b)
+
+//@ func (*Scanner).scanNumber
+//@   requires wfS(s) && (seenDecimalPoint ==> s.offset >= 1)
+//@   ensures  wfS(s) && s.offset >= old(s.offset)
+//@   ensures  result0 == token.INT || result0 == token.FLOAT
+//@   assigns  s.ch, s.offset, s.rdOffset, s.ErrorCount, s.file.*, allelems(token.index)
+
+//@ func (*Scanner).consumeQuotes
+//@   requires wfS(s)
+//@   loop 0 invariant wfS(s) && s.offset >= old(s.offset) && n >= 0
+//@   ensures  wfS(s) && s.offset >= old(s.offset)
+//@   assigns  s.ch, s.offset, s.rdOffset, s.ErrorCount, s.file.*, allelems(token.index)
+
+//@ func (*Scanner).consumeStringClose
+//@   requires wfS(s)
+//@   loop 0 invariant wfS(s) && s.offset >= old(s.offset)
+//@   ensures  wfS(s) && s.offset >= old(s.offset)
+//@   assigns  s.ch, s.offset, s.rdOffset, s.ErrorCount, s.file.*, allelems(token.index)
+
+//@ func (*Scanner).scanHashes
+//@   requires wfS(s)
+//@   loop 0 invariant wfS(s) && s.offset >= old(s.offset)
+//@   ensures  wfS(s) && s.offset >= old(s.offset)
+//@   assigns  s.ch, s.offset, s.rdOffset, s.ErrorCount, s.file.*, allelems(token.index)
+
+//@ func (*Scanner).recoverParen
+//@   requires wfS(s)
+//@   loop 0 invariant wfS(s) && s.offset >= old(s.offset)
+//@   ensures  wfS(s) && s.offset >= old(s.offset)
+//@   assigns  s.ch, s.offset, s.rdOffset, s.ErrorCount, s.file.*, allelems(token.index)
+
+//@ func (*Scanner).skipWhitespace
+//@   requires wfS(s)
+//@   loop 0 invariant wfS(s) && s.offset >= old(s.offset)
+//@   ensures  wfS(s) && s.offset >= old(s.offset)
+//@   assigns  s.ch, s.offset, s.rdOffset, s.ErrorCount, s.file.*, allelems(token.index), s.spacesSinceLast, s.linesSinceLast
+
+//@ func (*Scanner).switch2
+//@   requires wfS(s)
+//@   ensures  wfS(s) && s.offset >= old(s.offset)
+//@   ensures  result == tok0 || result == tok1
+//@   assigns  s.ch, s.offset, s.rdOffset, s.ErrorCount, s.file.*, allelems(token.index)
+
+// requires a non-empty interpolation stack: established by the parser's
+// INTERPOLATION protocol (A-int at the call in cue/parser)
+//@ func (*Scanner).popInterpolation
+//@   requires len(s.quoteStack) > 0
+//@   ensures  len(s.quoteStack) == old(len(s.quoteStack)) - 1
+//@   assigns  s.quoteStack
+
+//@ func (*Scanner).scanEscape
+//@   assumed A-int (Tier B: not yet verified): consumes an escape sequence by calls of next only
+//@   requires wfS(s)
+//@   ensures  wfS(s) && s.offset >= old(s.offset)
+//@   assigns  s.ch, s.offset, s.rdOffset, s.ErrorCount, s.file.*, allelems(token.index)
+
+//@ func (*Scanner).scanString
+//@   assumed A-int (Tier B: the three computed slice bounds of scanString are not yet verified)
+//@   requires wfS(s)
+//@   ensures  wfS(s) && s.offset >= old(s.offset)
+//@   ensures  result0 == token.INTERPOLATION ==> len(s.quoteStack) > 0
+//@   assigns  s.ch, s.offset, s.rdOffset, s.ErrorCount, s.file.*, allelems(token.index), s.quoteStack, allelems(quoteInfo)
+
+//@ func (*Scanner).Scan
+//@   requires wfS(s)
+//@   loop 0 invariant wfS(s) && s.offset >= old(s.offset)
+//@   loop 1 invariant wfS(s) && s.offset >= old(s.offset) && 0 <= offset && s.offset >= offset + quote.numHash && quote.numHash >= 1
+//@   ensures  wfS(s) && s.offset >= old(s.offset)
+//@   ensures  tok == token.INTERPOLATION ==> len(s.quoteStack) > 0
+//@   assigns  s.ch, s.offset, s.rdOffset, s.ErrorCount, s.file.*, allelems(token.index), s.quoteStack, allelems(quoteInfo), s.linesSinceLast, s.spacesSinceLast, s.insertEOL, s.nextHasComma
+
+//@ func (*Scanner).scanAttributeTokens
+//@   requires wfS(s)
+//@   loop 0 invariant wfS(s) && s.offset >= old(s.offset)
+//@   ensures  wfS(s) && s.offset >= old(s.offset)
+//@   may_panic
+//@   assigns  s.ch, s.offset, s.rdOffset, s.ErrorCount, s.file.*, allelems(token.index), s.quoteStack, allelems(quoteInfo), s.linesSinceLast, s.spacesSinceLast, s.insertEOL, s.nextHasComma
+
+//@ func (*Scanner).scanAttribute
+//@   requires wfS(s) && s.offset >= 1
+//@   ensures  wfS(s) && s.offset >= old(s.offset)
+//@   ensures  tok == token.ATTRIBUTE
+//@   assigns  s.ch, s.offset, s.rdOffset, s.ErrorCount, s.file.*, allelems(token.index), s.quoteStack, allelems(quoteInfo), s.linesSinceLast, s.spacesSinceLast, s.insertEOL, s.nextHasComma
